@@ -183,6 +183,9 @@ def panel_desc(rng, model=None, mmax=6, lam=None, fl=None, sub=None, nmax_plies=
         d['r'] = max(d['r'], 1.5 * np.sin(np.deg2rad(d['alphadeg'])) * a + 0.3 * b)
     tscale = min(a, b) * logu(rng, 1e-3, 3e-2)
     d['lam'] = lam if lam is not None else laminate(rng, nmax=nmax_plies, tscale=tscale / 4)
+    if lam is None and rng.random() < 0.1:
+        # Panel.force_orthotropic_laminate: the 16/26 couplings of A, B, D are dropped from the laminate matrix (in place)
+        d['lam'] = dict(d['lam'], force_ortho=True)
     d['flags'] = fl if fl is not None else flags(rng)
     if sub is None:
         sub = rng.random() < 0.3
@@ -235,6 +238,8 @@ def build_panel(d, explicit_model=True):
         p.model = MODEL_NAME[d['model']]
     apply_flags(p, d['flags'])
     p.out_num_cores = 1
+    if lam.get('force_ortho'):
+        p.force_orthotropic_laminate = True
     return p
 
 
